@@ -37,4 +37,5 @@ func main() {
 	genConsts()
 	genTerminfo()
 	genColors()
+	genC14()
 }
